@@ -1185,8 +1185,9 @@ class Summariser:
             t = ("newstream", "BytesIO", st.tick("newstream"), args, kws)
             self.emit(st, "NEWSTREAM", {"cls": "BytesIO", "args": args, "kw": kws, "res": t}, node)
             return t
-        if base == ("free", "BytesIOWithOffsets") and meth == "from_reading" and "BytesIOWithOffsets" in M.classes:
-            r = self.inline(M.resolve("BytesIOWithOffsets", "from_reading"), args, kws, node, st)
+        if base == ("free", "BytesIOWithOffsets") and "BytesIOWithOffsets" in M.classes and M.resolve("BytesIOWithOffsets", meth) is not None:
+            # the factory helpers of the substream class (from_reading and any sibling): inlined, so that the offset they compute is visible
+            r = self.inline(M.resolve("BytesIOWithOffsets", meth), args, kws, node, st)
             if r is not None:
                 return r
         if self.is_stream(base):
